@@ -20,7 +20,7 @@ pub fn def() -> PropDef {
     PropDef {
         id: "C13",
         level: "model_checking",
-        rule: "(a) every sequence of length <= d over {remote insert of an entry of a two-author universe, remove-and-recreate the document}; after the last step get_latest_for_each_author and has_news_for_us(h) for every peer report h in {absent,0,T1,T2,T3}^2 are compared with the heads of the reference replica; (b) AuthorHeads::encode/decode for every set of <= 4 authors with timestamps from {0,1,2,127,128,16383,16384} (equal timestamps included) under every size limit from 1 to unlimited length + 1 and without limit; non-trivial (a) = the sequence holds two entries of one author with different timestamps or a removal after an insert, (b) = at least two authors",
+        rule: "(a) every sequence of length <= d over {remote insert of an entry of a two-author universe, remove-and-recreate the document}; after the last step get_latest_for_each_author and has_news_for_us(h) for every peer report h in {absent,0,T1,T2,T3}^2 are compared with the heads of the reference replica; (b) AuthorHeads::encode/decode for every set of <= 4 authors with timestamps from {0,1,2,127,128,16383,16384} (equal timestamps included) under every size limit from 1 to unlimited length + 1 and without limit, plus one set of 200 heads (the length prefix of the encoding grows to two bytes at 128) under every limit in the window that keeps 120..136 heads; non-trivial (a) = the sequence holds two entries of one author with different timestamps or a removal after an insert, (b) = at least two authors",
         assumptions: &[
             "size limit 0 is excluded: no postcard sequence fits into zero bytes",
             "where several keys attain an author's maximal timestamp any of them is accepted as the head's key",
@@ -196,9 +196,95 @@ const TS: [u64; 7] = [0, 1, 2, 127, 128, 16383, 16384];
 
 fn aid(i: u8) -> AuthorId {
     let mut b = [0x40u8; 32];
-    b[0] = 0x10 * (i + 1);
+    b[0] = 0x10u8.wrapping_mul(i.wrapping_add(1));
     b[31] = i;
     AuthorId::from(&b)
+}
+
+fn varint_len(v: u64) -> usize {
+    let mut n = 1;
+    let mut v = v >> 7;
+    while v > 0 {
+        n += 1;
+        v >>= 7;
+    }
+    n
+}
+
+/// Size of a correct encoding of a list of head timestamps: length prefix + per item
+/// varint(timestamp) + 32 bytes of author id.
+fn enc_size(ts: impl Iterator<Item = u64>) -> usize {
+    let mut n = 0u64;
+    let mut sum = 0;
+    for t in ts {
+        n += 1;
+        sum += 32 + varint_len(t);
+    }
+    varint_len(n) + sum
+}
+
+/// Large head sets: the length prefix of the encoding grows from one to two bytes at 128 heads.
+/// 200 authors with distinct timestamps; every size limit in a window around 120..136 kept heads.
+fn check_heads_large() -> (Vec<(&'static str, Value, String)>, u64) {
+    let mut bad = vec![];
+    let mut calls = 0;
+    let n = 200u64;
+    let author = |i: u64| {
+        let mut b = [0x21u8; 32];
+        b[0] = (i >> 8) as u8;
+        b[1] = (i & 0xff) as u8;
+        AuthorId::from(&b)
+    };
+    // timestamps 1000+i: all two-byte varints, so every item has the same size
+    let heads: AuthorHeads = (0..n).map(|i| (author(i), 1000 + i)).collect();
+    let input: BTreeMap<AuthorId, u64> = heads.iter().map(|(a, t)| (*a, *t)).collect();
+    let size_of_newest = |k: u64| enc_size((0..k).map(|i| 1000 + n - 1 - i));
+    let lo = size_of_newest(120);
+    let hi = size_of_newest(136) + 1;
+    for limit in lo..=hi {
+        calls += 1;
+        let Ok(enc) = heads.encode(Some(limit)) else {
+            bad.push(("encode_ok", json!({"large": true}), format!("encode({limit}) failed")));
+            continue;
+        };
+        if enc.len() > limit {
+            bad.push((
+                "never_exceeds_limit",
+                json!({"heads_at_least_128": true}),
+                format!("200 heads, limit {limit}: encoded {} bytes", enc.len()),
+            ));
+        }
+        let Ok(dec) = AuthorHeads::decode(&enc) else {
+            bad.push(("decode_ok", json!({"large": true}), format!("decode after limit {limit}")));
+            continue;
+        };
+        let kept: BTreeMap<AuthorId, u64> = dec.iter().map(|(a, t)| (*a, *t)).collect();
+        if !kept.iter().all(|(a, t)| input.get(a) == Some(t)) {
+            bad.push(("kept_is_subset_of_input", json!({"large": true}), format!("limit {limit}")));
+            continue;
+        }
+        let max_dropped = input.iter().filter(|(a, _)| !kept.contains_key(*a)).map(|(_, t)| *t).max();
+        if let Some(md) = max_dropped {
+            if kept.values().any(|t| *t < md) {
+                bad.push(("keeps_the_newest", json!({"large": true}), format!("limit {limit}: dropped @{md} but kept an older head")));
+            }
+            let with = enc_size(kept.values().copied().chain(std::iter::once(md)));
+            if with <= limit {
+                bad.push((
+                    "keeps_as_many_as_fit",
+                    json!({"heads_at_least_128": true}),
+                    format!("200 heads, limit {limit}: kept {} heads although one more would fit ({with} bytes)", kept.len()),
+                ));
+            }
+        }
+    }
+    // and without limit
+    calls += 1;
+    match heads.encode(None).ok().and_then(|e| AuthorHeads::decode(&e).ok()) {
+        Some(d) if d.iter().map(|(a, t)| (*a, *t)).collect::<BTreeMap<_, _>>() == input => {}
+        _ => bad.push(("no_limit_keeps_every_author", json!({"large": true}), "200 heads do not survive encode/decode".to_string())),
+    }
+    (bad, calls)
 }
 
 fn check_heads(set: &[(u8, u64)]) -> (Vec<(&'static str, Value, String)>, u64) {
@@ -374,10 +460,34 @@ fn run(ctx: &Ctx, report: &mut Report) {
             }
         });
     }
+    if ctx.shard == 0 {
+        report.evaluations += 1;
+        report.traces += 1;
+        report.nontrivial += 1;
+        match catch(check_heads_large) {
+            Err(p) => report.violation("no_panic", json!({"large": true}), json!({"heads_large": true}), format!("panic: {p}"), 0),
+            Ok((bad, calls)) => {
+                report.transitions += calls;
+                report.count("encode_calls", calls);
+                for (o, w, d) in bad {
+                    report.violation(o, w, json!({"heads_large": true}), d, 0);
+                }
+            }
+        }
+    }
     let _ = VALS;
 }
 
 fn replay(case: &Value) -> anyhow::Result<(bool, String)> {
+    if case.get("heads_large").is_some() {
+        return match catch(check_heads_large) {
+            Err(p) => Ok((true, format!("panic: {p}"))),
+            Ok((bad, _)) => {
+                let out: String = bad.iter().map(|(o, _, d)| format!("FAILED {o}: {d}\n")).collect();
+                Ok((!bad.is_empty(), out))
+            }
+        };
+    }
     if let Some(h) = case.get("heads") {
         let set: Vec<(u8, u64)> = serde_json::from_value(h.clone())?;
         return match catch(|| check_heads(&set)) {
